@@ -16,9 +16,12 @@ ModLimbs(h, n) ==
 \* hash partitioning: `hash(key columns) % n`; equal keys have equal hashes, hence the same output
 HashPart(h, n) == ModLimbs(h, n)
 
-\* round robin routes whole batches: the k-th (0-based) non-empty batch of input `i` (1-based) of `nin`
-\* goes to (start + k) % n, start = floor((i-1) * n / nin); order-preserving mode starts every input at 0
-RRPart(i, nin, n, k, po) == ((IF po THEN 0 ELSE ((i - 1) * n) \div nin) + k) % n
+\* round robin routes whole batches: the k-th (0-based) non-empty batch of an input goes to
+\* (start + k) % n.  The property does not fix `start`; the implementation documents
+\* start = floor((i-1) * n / nin) for input i (1-based) of nin, and 0 in order-preserving mode.
+RRPartFrom(start, n, k) == (start + k) % n
+RRDocStart(i, nin, n, po) == IF po THEN 0 ELSE ((i - 1) * n) \div nin
+RRPart(i, nin, n, k, po) == RRPartFrom(RRDocStart(i, nin, n, po), n, k)
 
 \* A key value is [nul |-> BOOLEAN, v |-> Int].  SQL sort options: NULL placement is decided by
 \* nulls_first alone; `desc` reverses the order of non-NULL values.
